@@ -97,6 +97,19 @@ fn check_deck(rep: &mut Rep, seed: u64, n_seeded: u64) {
         }
     }
     rep.add("deck_indexes_that_wrap_under_small_multipliers", wrap);
+    // indexes built from repeated / cancelling bytes and words, as they are and with the low byte or the low
+    // 16-bit word replaced by an in-range slot number: where a bounds test that folds or compares the index
+    // word by word lets the high words cancel and only looks at the low one
+    let mut structured = 0u64;
+    for v in drive::field_structured_u64(seed) {
+        for cand in [v, (v & !0xFF) | 0, (v & !0xFF) | 51, (v & !0xFFFF) | 0, (v & !0xFFFF) | 7, (v & !0xFFFF) | 51, (v & !0xFFFF_FFFF) | 13] {
+            if cand as usize >= 52 && cand <= usize::MAX as u64 {
+                idx.push(cand as usize);
+                structured += 1;
+            }
+        }
+    }
+    rep.add("deck_indexes_from_field_structured_values", structured);
     idx.sort_unstable();
     idx.dedup();
     for &i in &idx {
